@@ -404,7 +404,7 @@ func runC05(r *R) {
 			for _, e := range rt.log.Snapshot() {
 				if e.Seq > waitSq {
 					switch e.Kind {
-					case "gun-new", "warmup", "gun-bind", "prov-run-in", "aggr-run-in", "shoot-in", "acquire":
+					case "gun-new", "warmup", "gun-bind", "prov-run-in", "aggr-run-in", "shoot-in", "acquire", "gun-close":
 						r.Fail("activity-after-wait/"+e.Kind, "pool %d: %s happened after Engine.Wait had returned (at %v): the engine's background tasks were not over; %s", pi, e.Kind, waitAt, desc)
 					}
 				}
@@ -428,13 +428,14 @@ func runC05(r *R) {
 					if e.Kind == "gun-bind" && e.Err == "" {
 						bound[e.Ptr] = true
 					}
-					if e.Kind == "gun-close" {
+					if e.Kind == "gun-close" && e.Seq <= waitSq {
+						// (closed by the time Wait returned: a Close still pending then is not covered by anything the caller can wait for)
 						closes[e.Ptr]++
 					}
 				}
 				for g := range bound {
 					if closes[g] != 1 {
-						r.Fail("gun-close", "pool %d: a closable gun of a started instance was closed %d times; %s", pi, closes[g], desc)
+						r.Fail("gun-close", "pool %d: a closable gun of a started instance had been closed %d times when Engine.Wait returned; %s", pi, closes[g], desc)
 						break
 					}
 				}
